@@ -296,6 +296,7 @@ type workerSummary struct {
 	Nontrivial  int64            `json:"nontrivial"`
 	Stats       map[string]int64 `json:"stats"`
 	Outcomes    []string         `json:"outcomes"`
+	OutcomeN    map[string]int64 `json:"outcome_n,omitempty"`
 	Samples     []string         `json:"samples"`
 	Strata      map[string]int64 `json:"strata"`
 	TimedOut    bool             `json:"timed_out"`
@@ -433,8 +434,12 @@ func runWorker(c *Check, tier string, seed int64, spec string, startAfter int64)
 		for k, v := range res.Stats {
 			sum.Stats[k] += v
 		}
-		if res.Outcome != "" && len(outcomes) < 64 {
+		if res.Outcome != "" && (len(outcomes) < 64 || outcomes[res.Outcome]) {
 			outcomes[res.Outcome] = true
+			if sum.OutcomeN == nil {
+				sum.OutcomeN = map[string]int64{}
+			}
+			sum.OutcomeN[res.Outcome]++
 		}
 		if len(sum.Samples) < 6 && (res.Nontrivial || sum.Evaluations < 3) && sum.Evaluations%7 == 1 {
 			s := res.Sample
@@ -762,6 +767,12 @@ func finish(c *Check, tier string, seed int64, st *parentState, wall time.Durati
 		for _, o := range s.Outcomes {
 			outcomes[o] = true
 		}
+		for o, n := range s.OutcomeN {
+			if total.OutcomeN == nil {
+				total.OutcomeN = map[string]int64{}
+			}
+			total.OutcomeN[o] += n
+		}
 		if len(total.Samples) < 10 {
 			total.Samples = append(total.Samples, s.Samples...)
 		}
@@ -829,6 +840,7 @@ func finish(c *Check, tier string, seed int64, st *parentState, wall time.Durati
 		"exhaustive":                       doneAll && !machine,
 		"strata":                           total.Strata,
 		"outcome_classes":                  len(outcomes),
+		"outcome_histogram":                total.OutcomeN,
 		"known_findings_seen":              knownSeen,
 		"worker_restarts":                  st.fatals,
 		"fatal_exits_not_reproduced_alone": st.unconfirmed,
